@@ -432,6 +432,35 @@ def log(p):
     return P(App("log", (p,)))
 
 
+def complex_split(p):
+    """(re, im) of a polynomial in which the imaginary unit is the literal symbol `lit:1j` (i^2 = -1)."""
+    p = P(p)
+    re, im = ZERO, ZERO
+    for mono, c in p.terms.items():
+        k = 0
+        rest = []
+        for a, pw in mono:
+            if isinstance(a, Sym) and a.name == "lit:1j" and isinstance(pw, int):
+                k += pw
+            else:
+                rest.append((a, pw))
+        m = Poly({tuple(rest): c}) if rest else const(c)
+        k %= 4
+        if k == 0:
+            re = re + m
+        elif k == 1:
+            im = im + m
+        elif k == 2:
+            re = re - m
+        else:
+            im = im - m
+    return re, im
+
+
+def has_imag_unit(p):
+    return p is not None and hasattr(p, "syms") and "lit:1j" in P(p).syms()
+
+
 def trig_normal(p):
     """sin(y)^2 -> 1 - cos(y)^2 in every monomial (a canonical form for polynomials in cos y, sin y: at most one sin(y) per
     monomial), applied to the atoms' own arguments as well."""
